@@ -24,6 +24,15 @@ CHECKS = {
     'C06': (MC, 'explicit-state BFS of DependencyTracker histories against a dict model; bounded-work counters on all generated-program executions; adversarial-line state graph of Solver.solve()',
             'All operation histories up to the depth bound on the real tracker; every generated program execution is checked for attempts <= 1 + distinct waits and prompts <= 1 per input.',
             'Trusted: the dict model (e1.Model).', '5/C06'),
+    'C07': (EX, 'exhaustive enumeration of figure_tax over every whole dollar 0..99,999 x 5 statuses x 3 years, row edges, bracket boundaries and a fixed grid to 1e12, against independently written statutory brackets (midpoint rule / bracket formula)',
+            'Every whole-dollar taxable income below $100,000 and every boundary above is evaluated on the shipped figure_tax and compared with statutory.py; monotonicity, marginal-rate bound and QSS==MFJ checked on the same enumeration.',
+            'Trusted: hv/statutory.py (brackets from Rev. Proc. 2020-45/2021-45/2022-38), cross-checked: reproduces every shipped table cell and worksheet constant.', '5/C07'),
+    'C11': (EX, 'exhaustive enumeration of all strings <= L over a 26-symbol alphabet x 9 input kinds x 3 routes (spec, INI file/InputStore, prompt loop + store) and a line-level route on the real Solver',
+            'valid() <=> value() succeeds; store yields a value only for valid text, InvalidInput otherwise, MissingInput for absent keys; values have the declared type, are finite and equal an independent parse for plain numerals.',
+            'Trusted: the recognisers in c11.expected(). Strings longer than L (quick 4, thorough 5) or outside the alphabet not covered.', '5/C11'),
+    'C12': (MC, 'exhaustive product field class x places x 44-value alphabet directly and through the Solver; monitors on every stored/read value of the explored real returns (E3)',
+            'Exact declared type or TypeError naming the line; money rounded (independent decimal rounding) before any reader sees it; blank -> empty value; mirror lines of input forms have the matching type.',
+            'Trusted: decimal-based rounding oracle.', '5/C12'),
     'C13': (MC, 'exhaustive bounded exploration with prompt logs; solve -> write back -> solve histories',
             'Prompt arguments are compared with the attempt/read log; the second run on the written-back inputs must ask nothing and reproduce the outcome; never-read inputs are dropped and the outcome must not change.',
             'Trusted: attempt logging wrappers.', '5/C13'),
